@@ -95,6 +95,14 @@ def uptoLastSlash (p : Str) : Str := (p.reverse.dropWhile (fun c => c != '/')).r
 /-- path.Dir -/
 def pathDir (p : Str) : Str := pathClean (uptoLastSlash p)
 
+/-- path.Dir on a CLEAN path (no empty, "." or ".." segments — what path.Join produces and what the loader stores):
+    no slash → "."; only the leading slash → "/"; otherwise everything before the last slash. On clean paths this is
+    `pathDir`; the common-directory loop only ever sees the directory of the root document's location and its
+    ancestors. -/
+def dirC (p : Str) : Str :=
+  let pre := uptoLastSlash p
+  if pre.isEmpty then ['.'] else if pre == ['/'] then ['/'] else pre.dropLast
+
 /-- path.Ext: from the last '.' of the last segment -/
 def extRev : Str → Str → Str      -- scanning the reversed path; acc = what was scanned (in forward order)
   | _, [] => []
@@ -175,7 +183,10 @@ def cutDirectories (p dirs : Str) : Str × Bool :=
 /-- `for ext := path.Ext(f); len(ext) > 0; ext = path.Ext(f) { f = strings.TrimSuffix(f, ext) }` -/
 def extLoop : Nat → Str → Option Str
   | 0, _ => none
-  | n + 1, f => let e := pathExt f; if e.isEmpty then some f else extLoop n (trimSuffix f e)
+  | n + 1, f =>
+    let e := pathExt f
+    -- path.Ext returns a suffix of f, so strings.TrimSuffix(f, ext) removes exactly len(ext) bytes
+    if e.isEmpty then some f else extLoop n (f.take (f.length - e.length))
 
 /-- the common-directory loop -/
 def trimLoop : Nat → Str → Str → Option Str
@@ -185,7 +196,7 @@ def trimLoop : Nat → Str → Str → Option Str
     else match cutDirectories f commonDir with
       | (p, true) => some p
       | (_, false) =>
-        let parent := pathDir commonDir
+        let parent := dirC commonDir
         if parent == commonDir then some f else trimLoop n f parent
 
 inductive NameRes
@@ -205,32 +216,44 @@ def assemble (filePath componentPath : Str) : Str :=
             else (if n1.isEmpty then [] else n1 ++ ['_']) ++ trimLeft componentPath dotSlash
   sanitize n2
 
+/-- "If the path is the same as the root doc, just remove." -/
+def sameAsRoot (root : RootInfo) (filePath : Str) : Str :=
+  match root.url with
+  | some u => if filePath == u then [] else filePath
+  | none => filePath
+
+/-- "Trim the common prefix with the root doc path." (only when the root has a location) -/
+def trimCommon (root : RootInfo) (f : Str) : Option Str :=
+  match root.url with
+  | none => some f
+  | some u => trimLoop ((dirC u).length + 2) f (dirC u)
+
 def fileNamePart (root : RootInfo) (filePath : Str) : Option Str :=
   if filePath.isEmpty then some [] else
-  let f1 := match root.url with | some u => if filePath == u then [] else filePath | none => filePath
-  match extLoop (f1.length + 1) f1 with
+  match extLoop ((sameAsRoot root filePath).length + 1) (sameAsRoot root filePath) with
   | none => none
-  | some f2 =>
-    match root.url with
-    | none => some f2
-    | some u => trimLoop ((pathDir u).length + 2) f2 (pathDir u)
+  | some f2 => trimCommon root f2
+
+/-- the location the name is derived from: the root component's location when the reference matches one -/
+def nameTarget (root : RootInfo) (rp : Str × Str) (inRoot : Option Str) : Option (Str × Str) :=
+  match inRoot with
+  | some nameInRoot => (match root.url with | some u => some (u, trimPrefix nameInRoot ['#']) | none => none)
+  | none => some rp
+
+def nameOf (root : RootInfo) (coll : Str) (amb : Bool) (nm : Option (Str × Str)) : NameRes :=
+  match nm with
+  | none => .panic
+  | some (filePath, componentPath) =>
+    match fileNamePart root filePath with
+    | none => .fuel
+    | some fp => .name (assemble fp (cutComponents coll componentPath)) amb
 
 def defaultName (root : RootInfo) (r : RefInfo) : NameRes :=
   if r.ref.isEmpty then .panic else
   match r.refPath with
   | none => .panic
   | some rp =>
-    let (inRoot, amb) := referencesComponentInRoot root r
-    let nm : Option (Str × Str) :=
-      match inRoot with
-      | some nameInRoot => (match root.url with | some u => some (u, trimPrefix nameInRoot ['#']) | none => none)
-      | none => some rp
-    match nm with
-    | none => .panic
-    | some (filePath, componentPath) =>
-      let componentPath := cutComponents r.coll componentPath
-      match fileNamePart root filePath with
-      | none => .fuel
-      | some fp => .name (assemble fp componentPath) amb
+    let q := referencesComponentInRoot root r
+    nameOf root r.coll q.2 (nameTarget root rp q.1)
 
 end KinModel.RefName
